@@ -1,6 +1,6 @@
 (* Props/C02.v — Deletes touch only files agentpack itself recorded as managed.
    Statements only; proofs in Proofs/DeployP.v. *)
-From AP Require Import Base.Str Gen.Tables Model.Deploy Proofs.DeployP Proofs.ConvergeP Proofs.RollbackP Proofs.ManifestKeepP.
+From AP Require Import Base.Str Gen.Tables Model.Deploy Proofs.DeployP Proofs.ConvergeP Proofs.RollbackP Proofs.ManifestKeepP Proofs.BootstrapNoDeleteP.
 Open Scope N_scope.
 
 (* a delete is planned only for a path in the managed set that is absent from the desired state
@@ -84,6 +84,26 @@ Proof. exact foreign_manifests_untouched. Qed.
 Print Assumptions C02_foreign_manifests_untouched.
 
 (* non-vacuity: a world with a hostile manifest (.. entry, absolute entry) next to a valid entry *)
+(* bootstrap (and init --bootstrap) plans with an EMPTY managed set: whatever the world, the roots
+   and the operator files it wants, it never plans a delete — every change creates or updates a
+   desired path with the desired bytes *)
+Theorem C02_bootstrap_never_deletes : forall w roots D c,
+  In c (fst (bootstrap_cmd w roots D)) ->
+  c_op c <> PDelete /\ exists d, In d D /\ c_path c = dpath d /\ c_after c = Some (dcontent d).
+Proof. exact bootstrap_no_delete. Qed.
+Print Assumptions C02_bootstrap_never_deletes.
+
+(* a bootstrap that does plan something: a stale operator file recorded by a manifest is left alone *)
+Example C02_bootstrap_nonvacuous :
+  let r := Build_root (s "codex") [s "h"; s "skills"] true in
+  let pold := [s "h"; s "skills"; s "old"; s "SKILL.md"] in
+  let po := [s "h"; s "skills"; s "agentpack-operator"; s "SKILL.md"] in
+  let f : fs := upd (upd (fun _ => None) (mf_path r) (Some (FMan (Parsed 1 (s "codex") [(s "old/SKILL.md", 3)])))) pold (Some (FBytes 3)) in
+  let w := Build_world f [] in
+  map c_op (fst (bootstrap_cmd w [r] [Build_dfile (s "codex") po 2 []])) = [PCreate] /\
+  files (snd (bootstrap_cmd w [r] [Build_dfile (s "codex") po 2 []])) pold = Some (FBytes 3).
+Proof. vm_compute. split; reflexivity. Qed.
+
 Example C02_nonvacuous :
   let root := [s "home"; s "codex"] in
   let r := Build_root (s "codex") root false in
